@@ -57,14 +57,35 @@ func emptyParse(tmpl *Msg) ParseObs {
 	return ParseObs{M: 0, Reser: B{}}
 }
 
+// safely runs a library call under recover() and a deadline: a call that panics or does not return is reported, not suffered
+// (a goroutine that never returns cannot be stopped; Hangs counts them and the generators stop after a few).
 func safely(f func() error) (err error, panicked string) {
-	defer func() {
-		if r := recover(); r != nil {
-			panicked = fmt.Sprint(r)
-		}
+	type res struct {
+		err error
+		pn  string
+	}
+	ch := make(chan res, 1)
+	go func() {
+		var r res
+		defer func() {
+			if x := recover(); x != nil {
+				r.pn = fmt.Sprint(x)
+			}
+			ch <- r
+		}()
+		r.err = f()
 	}()
-	return f(), ""
+	select {
+	case r := <-ch:
+		return r.err, r.pn
+	case <-time.After(SafelyDeadline):
+		Hangs++
+		return nil, "the call did not return within " + SafelyDeadline.String()
+	}
 }
+
+// SafelyDeadline bounds every library call made by the codec drivers.
+var SafelyDeadline = 5 * time.Second
 
 func parseInto(tmpl *Msg, wire []byte, strict bool) ParseObs {
 	po := emptyParse(tmpl)
@@ -218,7 +239,7 @@ func RunDamage(id string, tmpl *Msg, wire []byte, full bool) *DamageObs {
 			vals = append(vals, b)
 		}
 	} else {
-		vals = []int{0, 1, 9, 10, 32, 48, 49, 57, 61, 65, 124, 127, 128, 255}
+		vals = []int{0, 1, 9, 10, 13, 32, 48, 49, 57, 61, 65, 124, 127, 128, 255}
 	}
 	try := func(kind string, pos, b int, d []byte) {
 		for _, mode := range []string{"strict", "nonstrict"} {
@@ -317,9 +338,14 @@ func RunRaw(id string, tmpl *Msg, op string, input []byte, lookupTag string, dea
 		}
 	case <-time.After(deadline):
 		o.Outcome, o.Detail = "hang", deadline.String()
+		Hangs++
 	}
 	return o
 }
+
+// Hangs counts decoder calls that did not return (their goroutines cannot be stopped and keep a processor busy):
+// generators stop feeding further inputs after a few of them.
+var Hangs int
 
 // ---------------------------------------------------------------------------------------
 // value: operation sequences on one value object (Values state machine, C17)
